@@ -1,10 +1,45 @@
 SPEC = dict(
     id="C31",
-    level_text="(under construction)",
-    technique="Lean 4 proof over an executable model of the CSV/Parquet import conversions; regenerated arithmetic tables and error policy; differential correspondence at function level and through the real import endpoints",
+    level_text=(
+        "Lean 4 theorems over an executable model of internal/api/import_inprocess.go + the hour-partitioned flush of "
+        "internal/ingest/arrow_writer.go, whose conversion tables (unit -> multiply/divide/identity, auto-detection thresholds, "
+        "MinInt64 clamp) and error policy (what ends every error branch; one buffer write after all conversion-error returns) are "
+        "REGENERATED from the current source by factgen. PROVED for all inputs: C31_time_auto (integer auto-detection exact and "
+        "never wraps over the whole int64 range), C31_time_int_partial / C31_time_arrow_partial + C31_time_int_exact_iff (explicit "
+        "units exact IFF the product fits int64; epoch_ns = truncation toward zero, error < 1 us), C31_parse_int_exact + "
+        "C31_infer_lossless_int/_str/_bool (int, string and bool columns are lossless up to the documented normal form canonInt: "
+        "no '+', no leading zeros, no negative zero; bool spellings 1/0/case-folded true/false; empty cell = null), "
+        "C31_infer_float_cells + C31_infer_lossless_float_partial (float columns: cells before the first non-integer are float64(int64), "
+        "exact for |n| <= 2^53), C31_rows (accepted => exactly one row per data record, header and exactly skip_rows records excluded), "
+        "C31_rows_once / C31_rows_hour (every buffered row is in exactly one hour file: count equality = multiset equality), "
+        "C31_all_or_nothing(+_parquet) + C31_bad_time_rejects + C31_policy_tied (any input-caused failure stores nothing). "
+        "The property is FALSE of the unchanged tree in three clauses; each has a Lean witness, a _partial theorem with an explicit "
+        "carve-out and a harness monitor: silent int64 wrap of epoch_s/epoch_ms/TIMESTAMP(ms) times (C31_time_int_witness, "
+        "C31_time_arrow_witness); lossy values in accepted files (C31_infer_float_witness: integers > 2^53 in a column demoted to float "
+        "and integers beyond int64; C31_extra_fields_witness; C31_underscore_witness; C31_uint64_witness); partial import left by a "
+        "storage write fault in a multi-hour flush (C31_flush_fault_witness). "
+        "VALIDATED, not proved: the model itself is diffed against the real functions (function level: intTimeToMicros, "
+        "autoIntEpochToMicros, arrowTimestampToMicros, inferAndConvertColumn, isBoolLiteral, stringsToTimeMicros, validateImportHeader, "
+        "strconv.ParseInt, float64(int64), ParseFloat on integer literals) and against the REAL endpoints POST /api/v1/import/{csv,parquet} "
+        "(stored Parquet files read back). PARAMETERS outside the model: CSV tokenisation (encoding/csv: the model starts from the record "
+        "list the reader yields), Parquet decoding (arrow-go: the model starts from the decoded typed columns), strconv.ParseFloat on "
+        "non-integer literals, float arithmetic of fractional epochs, time.Parse layouts, Decimal128.ToFloat64 - their results enter the "
+        "model as per-cell oracles; the end-to-end monitors check them against the generator's ground truth instead."
+    ),
+    level_note="proof (partial): float text conversion, CSV tokenisation and Parquet decoding are parameters; three clauses hold only under stated carve-outs (witness theorems + monitors)",
+    technique="Lean 4 proofs (omega over wrap64, digit-string induction, counting) over an executable model; regenerated conversion tables + error policy; differential correspondence at function level and through the real import endpoints with stored-row read-back",
     factgen=True,
     hooks={"internal/api": "go/hooks/c31_api"},
     harnesses=[dict(name="c31", tags="verif duckdb_arrow", timeout=dict(quick=900, thorough=3000))],
-    trusted_base=[],
-    assumptions=[],
+    trusted_base=[
+        "encoding/csv tokenisation (FieldsPerRecord=-1, LazyQuotes) is a parameter: the model is given the record list the reader yields for the uploaded bytes",
+        "arrow-go Parquet decoding and the arrow-go Parquet writer/reader used to store and read back rows",
+        "strconv.ParseFloat on non-integer literals, float64 multiplication/truncation of fractional epochs, time.Parse, Decimal128.ToFloat64: per-cell oracles computed by the real library calls",
+        "the harness's independent judges (big.Int / big.Rat exact arithmetic) that decide whether a stored value is a lossless image of a cell",
+        "fiber app.Test multipart upload stands for a real HTTP upload; admin auth is disabled (authManager nil) in the harness",
+    ],
+    assumptions=[
+        "no concurrent writer to the same (database, measurement) buffer during an import and import size < ingest.max_buffer_size (otherwise the flush is asynchronous; exercised separately by the async cases)",
+        "all-or-nothing is proved for input-caused failures; storage write faults are outside the property's quantifier and are reported as a separate finding class",
+    ],
 )
